@@ -62,8 +62,8 @@ ALIGNS = (1, 4, 16)
 BINS = (0, 1, 4, 6)  # length of the own binary; 0 = none
 PATS = (None, "zeros", "ones", "0xA5", "inc")
 BASES_LOOKUP = (0, 0xFFFF_F000)
-BASES_FILE = (0, 0x1000, 0xFFF8, 0xFFFF_F000)  # 0xFFF8: the image crosses a 64 KiB boundary
-BASES_FILE_THOROUGH = BASES_FILE + (0xFF_FFF8,)  # ... and the 24-bit S-record address boundary
+BASES_FILE = (0xFFF8, 0xFFFF_F000)  # quick; 0xFFF8: 16-bit start, the image crosses a 64 KiB boundary
+BASES_FILE_THOROUGH = (0, 0x1000, 0xFFF8, 0xFF_FFF8, 0xFFFF_F000)  # ... and the 24-bit S-record boundary
 
 ROOT_DEFAULT = (0, 0, 1, 0, None)  # (mode/offset, size, alignment, binary length, pattern)
 STEP_DEFAULT = ("app", 0, 1, 4, None)
@@ -81,18 +81,19 @@ def spaces(tier: str) -> list[dict]:
     if tier == "quick":
         return [
             _space("wide", ((0,), SIZES, ALIGNS, BINS, (None, "0xA5", "inc")),
-                   (MODES, SIZES, ALIGNS, BINS, (None, "zeros", "inc")), 2, 2, 3, 2, None, True, True),
-            _space("siblings", ((0,), (0, 5, 12), (1, 4), (0, 6), (None, "0xA5")),
-                   (MODES, (0, 4, 5), (1, 4), (0, 4, 6), (None, "0xA5")), 3, 3, 3, 2, None, False, False),
-            _space("deep", full_root, full_step, 4, 4, 3, 2, 3, False, True),
+                   (MODES, SIZES, (1, 4), BINS, (None, "zeros", "inc")), 2, 2, 3, 2, None, True, True),
             _space("deeper", full_root, full_step, 5, 4, 3, 2, 2, True, True),
+            _space("deep", ((0,), (0, 4, 5, 12), (1, 4), (0, 4, 6), (None, "0xA5", "inc")),
+                   (MODES, (0, 4, 5, 12), (1, 4), (0, 4, 6), (None, "0xA5", "inc")), 4, 4, 3, 2, 3, False, True),
+            _space("siblings", ((0,), (0, 5, 12), (1, 4), (0,), (None, "0xA5")),
+                   (MODES, (0, 4, 5), (1, 4), (0, 4), (None, "0xA5")), 3, 3, 3, 2, None, False, False),
         ]
     return [
         _space("wide", full_root, full_step, 2, 2, 3, 2, None, True, True),
-        _space("siblings", ((0,), (0, 5, 12), (1, 4), (0, 6), (None, "0xA5", "inc")),
-               (MODES, SIZES, (1, 4), BINS, (None, "0xA5")), 3, 3, 3, 2, None, False, False),
         _space("deep", full_root, full_step, 5, 4, 3, 2, 3, True, True),
         _space("deeper", full_root, full_step, 6, 4, 3, 2, 2, False, False),
+        _space("siblings", ((0,), (0, 5, 12), (1, 4), (0, 6), (None, "0xA5", "inc")),
+               (MODES, SIZES, (1, 4), BINS, (None, "0xA5")), 3, 3, 3, 2, None, False, False),
     ]
 
 
@@ -945,6 +946,8 @@ def _absorb(ctx: core.Ctx, task_descr: Any, res: Any, seed: int) -> bool:
 
 
 def run(ctx: core.Ctx) -> None:
+    import time as _time
+
     seed = ctx.seed
     sps = [_prepare(s) for s in spaces(ctx.tier)]
     only = os.environ.get("VERIF_C16_ONLY")  # development aid: restrict to some spaces (never exhaustive)
@@ -956,12 +959,18 @@ def run(ctx: core.Ctx) -> None:
     _cleanup_tmp()
     all_states: set = set()
     tables: dict = {}
-    total_trans = 0
-    total_traces = 0
+    tot = {"trans": 0, "traces": 0, "files": 0, "stop": False}
     file_states: list = []  # (space, codes) of every distinct legal state of the spaces with files=True
     file_seen: set = set()
-    stop = False
-    for sp in sps:
+    phases: dict = {}
+    t_phase = [_time.time()]
+
+    def mark(label: str) -> None:
+        now = _time.time()
+        phases[label] = round(phases.get(label, 0.0) + now - t_phase[0], 2)
+        t_phase[0] = now
+
+    def bfs(sp: dict) -> None:
         name = sp["name"]
         tab = {"levels": [], "root_alphabet": len(sp["root_alpha"]), "step_alphabet": len(sp["step_alpha"]),
                "weight_bound": sp["weight"], "max_nodes": sp["max_nodes"], "max_depth": sp["max_depth"],
@@ -969,7 +978,7 @@ def run(ctx: core.Ctx) -> None:
         tables[name] = tab
         frontier = [((), 0)]
         for level in range(1, sp["max_nodes"] + 1):
-            if stop:
+            if tot["stop"]:
                 break
             last = level == sp["max_nodes"]
             need_hist = (not last) or sp["files"]
@@ -995,7 +1004,7 @@ def run(ctx: core.Ctx) -> None:
                     ctx.exhaustive = False  # the successors of this chunk are missing
                     continue
                 lvl_trans += res["transitions"]
-                total_traces += res["traces"]
+                tot["traces"] += res["traces"]
                 if need_hist:
                     for h, codes, w in res["succ"]:
                         cur = new.get(h)
@@ -1009,14 +1018,15 @@ def run(ctx: core.Ctx) -> None:
                     lvl_hashes.update(array("Q", res["hashes"]))
                 if ctx.out_of_budget():
                     done = False
-                    stop = True
+                    tot["stop"] = True
                     break
-            total_trans += lvl_trans
+            tot["trans"] += lvl_trans
             legal = sum(1 for h in lvl_hashes if h & 1)
             tab["levels"].append({"images": level, "states_expanded": len(frontier), "transitions": lvl_trans,
                                   "distinct_states": len(lvl_hashes), "distinct_legal_states": legal, "complete": done})
-            all_states |= lvl_hashes
+            all_states.update(lvl_hashes)
             del lvl_hashes
+            mark(f"bfs:{name}")
             if not done:
                 break
             tab["completed_levels"] = level
@@ -1028,10 +1038,13 @@ def run(ctx: core.Ctx) -> None:
             frontier = [(new[h][0], new[h][1]) for h in order] if need_hist else []
             if level <= 3 and order:
                 ctx.sample({"space": name, "hist": _explicit(sp, new[order[len(order) // 2]][0])})
-    ctx.counters["evaluations"] = total_traces  # absorb() counted tasks; report executed traces
-    # file formats on every distinct legal state of the spaces that ask for it
-    nfiles = 0
-    if not stop and file_states:
+
+    # 1. the spaces whose legal states also go through the file formats
+    for sp in sps:
+        if sp["files"]:
+            bfs(sp)
+    # 2. file formats on every distinct legal state of those spaces
+    if not tot["stop"] and file_states:
         chunk = 200
         tasks = []
         fbases = BASES_FILE_THOROUGH if ctx.tier == "thorough" else BASES_FILE
@@ -1041,30 +1054,36 @@ def run(ctx: core.Ctx) -> None:
             byspace.setdefault(name, []).append(codes)
         for name, lst in byspace.items():
             tasks += [(name, seed, lst[i:i + chunk], fbases) for i in range(0, len(lst), chunk)]
-        ev0 = ctx.counters["evaluations"]
         for case, res in ctx.pool_map(w_files, tasks, timeout=300, chunksize=1, check_det=1, initfn=_winit):
             if _absorb(ctx, {"files": case[0], "states": len(case[2])}, res, seed):
-                nfiles += res["count"].get("file_states", 0)
+                tot["files"] += res["count"].get("file_states", 0)
             if ctx.out_of_budget():
-                stop = True
+                tot["stop"] = True
                 break
-        ctx.counters["evaluations"] = ev0 + sum(ctx.counters.get(f"file_{f}", 0) for f in ("BIN", "HEX", "S19"))
-    # byte-content sweep of the file formats
-    if not stop:
+        mark("files")
+    # 3. byte-content sweep of the file formats
+    if not tot["stop"]:
         seconds = list(range(256)) if ctx.tier == "thorough" else [0x00, 0x0A, 0x20, 0x30, 0x41, 0x80, 0xFF]
-        ev0 = ctx.counters["evaluations"]
         tasks = [(lo, lo + 8, seconds) for lo in range(0, 256, 8)]
         for case, res in ctx.pool_map(w_content, tasks, timeout=300, chunksize=1, check_det=1, initfn=_winit):
             _absorb(ctx, {"content": [case[0], case[1]], "second_bytes": len(case[2])}, res, seed)
-        ctx.counters["evaluations"] = ev0 + ctx.counters.get("content_cases", 0)
         ctx.cov["content_sweep"] = {"one_byte": 256, "two_byte": 256 * len(seconds), "hex_s19_values": 256}
-    # CLI representatives
-    if not stop:
-        ev0 = ctx.counters["evaluations"]
+        mark("content")
+    # 4. CLI representatives
+    if not tot["stop"]:
         for case, res in ctx.pool_map(w_cli, [seed], timeout=600, chunksize=1, check_det=0, nproc=1):
             _absorb(ctx, {"cli": True}, res, seed)
-        ctx.counters["evaluations"] = ev0 + ctx.counters.get("cli_invocations", 0)
+        mark("cli")
+    # 5. the remaining spaces (in-memory clauses only)
+    for sp in sps:
+        if not sp["files"]:
+            bfs(sp)
     _cleanup_tmp()
+    # absorb() counted worker tasks; report executed traces + file pairs + content cases + CLI calls
+    ctx.counters["evaluations"] = (tot["traces"] + sum(ctx.counters.get(f"file_{f}", 0) for f in ("BIN", "HEX", "S19"))
+                                   + ctx.counters.get("content_cases", 0) + ctx.counters.get("cli_invocations", 0))
+    ctx.cov["phase_wall_s"] = phases
+    total_trans, total_traces, nfiles, stop = tot["trans"], tot["traces"], tot["files"], tot["stop"]
     legal_states = sum(1 for h in all_states if h & 1)
     ctx.cov["states"] = len(all_states)
     ctx.cov["transitions"] = total_trans
@@ -1075,13 +1094,14 @@ def run(ctx: core.Ctx) -> None:
     ctx.cov["file_format_states"] = nfiles
     ctx.cov["spaces"] = tables
     ctx.cov["bounds"] = {s["name"]: {"max_images": s["max_nodes"], "max_depth": s["max_depth"],
-                                     "weight_bound": s["weight"], "completed_levels": tables[s["name"]]["completed_levels"]}
+                                     "weight_bound": s["weight"],
+                                     "completed_levels": tables.get(s["name"], {}).get("completed_levels", 0)}
                          for s in sps}
     ctx.rule = (
         "BFS over construction histories of real BinaryImage trees: step 0 = root attributes, step k = (existing image, "
         "add_image@offset | append_image, size, alignment, own binary length, pattern); every distinct canonical tree of a "
         "level is expanded with every step of the space's alphabet at every attach point (children <= 3 at the root, <= 2 "
-        "elsewhere; depth bound per space); 'wide' and 'siblings' take the full cross product of their domains, 'deep' all "
+        "elsewhere; depth bound per space); 'wide' and 'siblings' take the full cross product of their domains, 'deep'/'deeper' all "
         "histories with <= K non-default attributes in total.  A case is distinct when its canonical tree (offsets, "
         "reported explicit sizes, alignments, binaries, patterns, children sorted) was not reached before; non-trivial = "
         "every counted state was built on real objects and compared with the model (len of every image, validate verdict, "
@@ -1136,6 +1156,7 @@ def replay(ctx: core.Ctx, rec: dict) -> bool:
         if rec["clause"].startswith("C16.file"):
             eval_files(hist, seed, V, C, BASES_FILE_THOROUGH)
         _cleanup_tmp()
+    _cleanup_tmp()
     hits = [v for v in V if v[0] == rec["clause"] and v[1] == rec["disc"]]
     for h in hits[:5]:
         print(h[0], h[1], h[2][:600])
